@@ -8,6 +8,7 @@ import (
 	"math/rand"
 	"runtime"
 	"sort"
+	"strings"
 	"sync"
 	"time"
 
@@ -147,6 +148,27 @@ func (comp) Gen(prop string, rng *rand.Rand, tier string) *core.History {
 // Sequences are enumerated up to renaming of the keys (a key not used before is always the smallest
 // unused one). The value written by the i-th op is the byte i, so every overwrite is visible.
 func (comp) Exhaustive(prop string, tier string, yield func(*core.History)) {
+	if strings.HasSuffix(prop, ":scale") {
+		// MONITOR-ONLY scale histories: rings of more than 1024 / 4096 slots filled past their capacity
+		for _, N := range []int{1, 3} {
+			for _, S := range []int{1100} {
+				n := S + 200
+				name := func(j int) []byte { return []byte(fmt.Sprintf("k%05d", j)) }
+				all := make([][]byte, n)
+				for j := range all {
+					all[j] = name(j)
+				}
+				h := &core.History{}
+				h.SetConfig(core.N(uint64(S)), core.N(uint64(N)), core.LB(all))
+				for j := 0; j < n; j++ {
+					h.Add(opPut, "put", core.B(name(j)), core.B([]byte{byte(j >> 8), byte(j)}))
+				}
+				h.Add(opGet, "get", core.B(name(n-1)))
+				yield(h)
+			}
+		}
+		return
+	}
 	// LARGE-POPULATION histories (beyond the small scope): rings of several hundred slots filled past their capacity, one and three shards
 	for _, N := range []int{1, 3} {
 		S, n := 300, 360
